@@ -172,7 +172,7 @@ fn gen_dests(rng: &mut Rng) -> Vec<usize> {
     }
 }
 
-pub fn generate(rng: &mut Rng, n: usize) -> Vec<Value> {
+pub fn generate(rng: &mut Rng, n: usize, _tier: &str) -> Vec<Value> {
     let mut v = vec![];
     // fixed part: every length 0..=9 with the all-ones schedule and 1-byte destinations
     for len in 0..=9usize {
